@@ -311,14 +311,42 @@ fn case(rng: &mut Rng, pools: &mut std::collections::HashMap<usize, Pool>, rep: 
     let pool = pools.entry(pool_size).or_insert_with(|| make_pool(pool_size)).clone();
     let mut world = World::empty();
     let mut ps = ParSeq::new(root, pool.clone());
-    ps.setup(&mut world);
-    for l in &leaves {
-        let n = ctx.setups[l.uid as usize].load(SeqCst);
-        if n != 1 {
-            rep.violation("setup_missed_leaf", &format!("after ParSeq::setup leaf u{} has been set up {} times", l.uid, n), case_no, detail(&tree));
-            return;
+    // setup may be called again (another world, or after resources were removed): every call
+    // reaches every leaf
+    let rounds = rng.range(1, 3) as u32;
+    for round in 1..=rounds {
+        if round == 2 {
+            world = World::empty();
+        }
+        if round == 3 {
+            for l in &leaves {
+                for sl in l.reads.iter().chain(l.writes.iter()) {
+                    if rng.chance(1, 3) {
+                        remove_slot(&mut world, *sl);
+                    }
+                }
+            }
+        }
+        if round % 2 == 1 {
+            ps.setup(&mut world);
+        } else {
+            shred::RunNow::setup(&mut ps, &mut world);
+        }
+        for l in &leaves {
+            let n = ctx.setups[l.uid as usize].load(SeqCst);
+            if n != round {
+                rep.violation("setup_missed_leaf", &format!("after {} call(s) of ParSeq::setup leaf u{} has been set up {} times", round, l.uid, n), case_no, detail(&tree));
+                return;
+            }
+            for sl in l.reads.iter().chain(l.writes.iter()) {
+                if probe(&world, *sl) == Probe::Absent {
+                    rep.violation("setup_left_resource_missing", &format!("after {} call(s) of ParSeq::setup the resource {} of leaf u{} does not exist", round, sl.label(), l.uid), case_no, detail(&tree));
+                    return;
+                }
+            }
         }
     }
+    rep.metric("setup_rounds", rounds as i64);
     let mut pairs = Vec::new();
     seq_pairs(&tree, &mut pairs);
     rep.metric("seq_adjacent_pairs", pairs.len() as i64);
@@ -418,15 +446,19 @@ fn overlap_case(rng: &mut Rng, rep: &mut Report, case_no: u64) {
     rep.evaluations += 1;
     let wait = Duration::from_secs(10);
     let o = Arc::new(Overlap::new(vec![leaves.iter().map(|l| l.uid).collect()], wait));
-    let inside = rng.chance(1, 2);
+    // 0 = from outside any pool, 1 = from inside the own pool, 2 = from a worker of a *different*,
+    // narrow pool (for the tree's pool that is "outside": its children may still overlap)
+    let from = rng.below(3);
+    let foreign = make_pool(1);
+    let inside = from == 1;
     for _ in 0..20 {
         ctx.log.reset();
         ctx.arm(o.clone());
         ctx.set_mode(Mode::Run);
-        if inside {
-            pool.install(|| ps.dispatch(&world));
-        } else {
-            ps.dispatch(&world);
+        match from {
+            1 => pool.install(|| ps.dispatch(&world)),
+            2 => foreign.install(|| ps.dispatch(&world)),
+            _ => ps.dispatch(&world),
         }
         ctx.set_mode(Mode::Build);
         ctx.disarm();
@@ -450,12 +482,18 @@ fn overlap_case(rng: &mut Rng, rep: &mut Report, case_no: u64) {
             }
         });
         if okc.load(SeqCst) == k {
-            rep.violation("par_children_serialised", &format!("{} leaves under one par node could not all be inside run at once on a pool of {} threads, a plain rayon rendezvous on the same pool succeeds", k, pool_size), case_no, J::obj().set("tree", tree.to_json()));
+            rep.violation(
+                "par_children_serialised",
+                &format!("{} leaves under one par node could not all be inside run at once on a pool of {} threads (dispatch called {}), a plain rayon rendezvous on the same pool succeeds", k, pool_size, ["from outside any pool", "from inside the pool", "from a worker of a different 1-thread pool"][from]),
+                case_no,
+                J::obj().set("tree", tree.to_json()),
+            );
         } else {
             rep.inconclusive += 1;
         }
     } else {
-        rep.nontrivial(mix(0x0e11, mix(k as u64, pool_size as u64 + inside as u64 * 100)));
+        rep.nontrivial(mix(0x0e11, mix(k as u64, pool_size as u64 + from as u64 * 100)));
+        let _ = inside;
     }
 }
 
@@ -475,7 +513,7 @@ pub fn run(args: &Args) -> i32 {
             break;
         }
         let mut rng = Rng::new(args.case_seed(c));
-        if c % 100 == 99 && !crate::props::sched::tiny() {
+        if c % 50 == 49 && !crate::props::sched::tiny() {
             guard_case(&mut rep, c, |rep| overlap_case(&mut rng, rep, c));
         } else {
             guard_case(&mut rep, c, |rep| case(&mut rng, &mut pools, rep, c));
